@@ -17,6 +17,15 @@
         could ever be created": the Team serves its backlog whenever a worker is created or becomes
         idle; a correct Team only quits workers while its backlog is empty, so an unrun task next to
         a live worker, or after a worker was quit over a non-empty backlog, is a lost task);
+      * a task that never ran with no live worker left is NOT excused when a worker could have been created
+        for it: the monitor brackets every coordinator step with Team.statistics() and its count of
+        createWorker calls; a step that starts with no idle worker and fewer live workers than the limit
+        and ends with the backlog one longer (a submission was coordinated) without createWorker having
+        been asked is a missed opportunity; tasks submitted up to then that never run are lost
+        (`task-never-ran-though-worker-could-be-created`).  Judged only at quiescence and only for tasks
+        that really never ran - a Team that obtains its worker some other way is not faulted.  The
+        situation "submission coordinated behind an existing backlog while there is room under the
+        limit" (backlog formed at limit 0 or behind busy workers, then the limit is raised) is counted;
       * logException ran once per raising task;
       * after quit(): every created worker was quit exactly once and the coordinator is quit.
 (b) stress of the real `ThreadPool` with real threads and E5 yield injection inside Team /
@@ -54,6 +63,7 @@ ENGINE = "E1-explore (breadth-first variant, local)+E5-threads"
 TECHNIQUE = "runtime monitoring: exhaustive schedule exploration of the real Team with invariant/quiescence monitors + exactly-once/concurrency-bound monitors on the real ThreadPool under injected yields"
 RULE = ("(a) every history of Team actions up to depth 8 (quick) / 11 (thorough) with <= 3 tasks (the 2nd raises), limit 0..2, <= 2 grow, "
         "<= 2 shrink and <= 2 limit changes, breadth-first with pruning by a hash of the real team/worker/queue state; a case is distinct by its action history, non-trivial = at least one task submitted; "
+        "histories include backlogs formed at limit 0 / behind busy workers followed by a raised limit and a further submission (every coordinator step is bracketed by statistics() and the createWorker call count); "
         "(b) one case = one generated ThreadPool scenario (min, max, pre-start backlog, submitters, task kinds, adjustPoolsize plan, "
         "gate phase), distinct by that configuration")
 ASSUMPTIONS = [
@@ -63,7 +73,8 @@ ASSUMPTIONS = [
 ]
 SHARDS = {"quick": 4, "thorough": 16}
 FLOORS = {"explore_states": 5000, "quiescence_checks": 5000, "quit_quiescence_checks": 1000, "tasks_run_in_exploration": 5000,
-          "worker_creations_checked": 2000, "stranded_task_cases": 10, "post_quit_probes": 100,
+          "worker_creations_checked": 2000, "stranded_task_cases": 10,
+          "submissions_coordinated_behind_backlog_with_room": 100, "post_quit_probes": 100,
           "pools": 40, "pool_tasks_run": 4000, "pool_onresult": 4000, "pool_stops": 40, "gate_phases": 5, "yields_injected": 2000,
           "pool_tasks_failed_as_planned": 500, "pool_pre_start_tasks": 50, "pool_tasks_raised_baseexception": 400,
           "pool_reentrant_submissions": 200, "pool_onresult_raised": 200, "pool_second_bursts": 10, "tasks_submitted_from_a_task": 1000,
@@ -224,6 +235,8 @@ class TeamWorld:
         self.running_on = None
         self.dead = False
         self.retired_with_backlog = []
+        self.create_calls = 0
+        self.missed = []  # coordinator steps that backlogged a submission without asking for a worker although there was room
         self.team = Team(self.coord, self.create_worker, self.log_exception)
         self._actions = self._state = None
 
@@ -243,6 +256,7 @@ class TeamWorld:
 
     def create_worker(self):
         # same decision rule as twisted._threads._pool.limitedWorkerCreator
+        self.create_calls += 1
         st = self.team.statistics()
         if st.busyWorkerCount + st.idleWorkerCount >= self.limit:
             return None
@@ -261,6 +275,24 @@ class TeamWorld:
     def coord_performable(self):
         p = self.coord._pending
         return bool(p) and not _is_nomore(p[0])
+
+    def coord_step(self):
+        """One coordinator perform(), bracketed by the public view (statistics, createWorker calls)."""
+        st = self.team.statistics()
+        room = st.idleWorkerCount == 0 and self.live() < self.limit
+        backlog, calls, n_workers = st.backloggedWorkCount, self.create_calls, len(self.workers)
+        self._guard(self._coord_perform, "coordinator perform()")
+        if not room:
+            return
+        after = self.team.statistics().backloggedWorkCount
+        if after == backlog + 1 and self.create_calls == calls:
+            # only the coordination of a submission lengthens the backlog; there was no idle worker and
+            # room under the limit, yet createWorker was not asked
+            self.missed.append({"tasks_submitted_so_far": len(self.tasks), "live": self.live(), "limit": self.limit, "backlog_before": backlog})
+        elif backlog > 0 and after == backlog and len(self.workers) == n_workers + 1:
+            # a submission coordinated behind an existing backlog got a new worker (grow() would have
+            # shortened the backlog): the situation is exercised
+            self.ctx.count("submissions_coordinated_behind_backlog_with_room")
 
     # ---- E1 interface
     def actions(self):
@@ -297,7 +329,7 @@ class TeamWorld:
         self._actions = acts
         t = self.team
         self._state = (
-            self.limit, self.quit_called, self.probed, self.logged, tuple(sorted(self.budget.items())), bool(self.retired_with_backlog),
+            self.limit, self.quit_called, self.probed, self.logged, tuple(sorted(self.budget.items())), bool(self.retired_with_backlog), bool(self.missed),
             self.n_do, tuple((x.raises, x.spawns, x.runs, x.accepted) for x in self.tasks),
             tuple(sorted(x.slot for x in t._idle)), t._busyCount, tuple(_fp(p) for p in t._pending), t._toShrink,
             t._shouldQuitCoordinator, t._quit.isSet, self.coord._quit.isSet,
@@ -362,7 +394,7 @@ class TeamWorld:
                     self.bad("unexpected-exception", "Team.%s after quit raised %s" % (name, type(e).__name__))
                 self.bad("accepted-after-quit", "Team.%s() after quit() did not raise AlreadyQuit" % name, method=name)
         elif kind == "pc":
-            self._guard(self._coord_perform, "coordinator perform()")
+            self.coord_step()
         elif kind == "pw":
             x = next(x for x in self.workers if not x.quit_calls and x.slot == a[1])
             self._guard(x.perform, "worker perform()")
@@ -382,7 +414,7 @@ class TeamWorld:
         try:
             for _ in range(400):
                 if self.coord_performable():
-                    self._guard(self._coord_perform, "coordinator perform()")
+                    self.coord_step()
                 else:
                     x = next((x for x in self.workers if x.performable()), None)
                     if x is None:
@@ -401,6 +433,10 @@ class TeamWorld:
                     # backlog whenever a worker is created or becomes idle, so an unrun task next to
                     # a live worker at quiescence is a lost task.
                     if self.live() == 0 and not self.retired_with_backlog:
+                        if self.missed and t.i < self.missed[-1]["tasks_submitted_so_far"]:
+                            self.bad("task-never-ran-though-worker-could-be-created", "a task accepted by Team.do() never ran and no worker is left, although "
+                                     "the Team coordinated a submission with no idle worker and fewer workers than the limit without asking createWorker "
+                                     "(it queued the task behind the backlog instead)", task=t.i, missed=self.missed[:3])
                         stranded += 1
                         continue
                     if self.retired_with_backlog:
